@@ -30,7 +30,7 @@ namespace UtilModel.Routine
 /-- program counter of one `execute` goroutine -/
 inductive IS where
   | waiting | draining | running | returned | closed
-deriving DecidableEq, Repr
+deriving DecidableEq, Repr, Hashable
 
 structure Inst where
   rid : Nat
@@ -41,7 +41,7 @@ structure Inst where
   born : Bool := false             -- the context was already cancelled when the instance was created
   out : Option Nat := none
   recorded : Bool := false
-deriving DecidableEq, Repr
+deriving DecidableEq, Repr, Hashable
 
 /-- `runningRoutine` -/
 structure Rec where
@@ -54,16 +54,16 @@ structure Rec where
   success : Bool := false
   exited : Bool := false
   retry : Option Nat := none      -- `r.deferRetry` (timer id)
-deriving DecidableEq, Repr
+deriving DecidableEq, Repr, Hashable
 
 inductive TmS where
   | armed | fired | dead
-deriving DecidableEq, Repr
+deriving DecidableEq, Repr, Hashable
 
 structure Timer where
   rid : Nat
   st : TmS
-deriving DecidableEq, Repr
+deriving DecidableEq, Repr, Hashable
 
 inductive Op where
   | setContext (c : Nat) (restart : Bool)
@@ -74,7 +74,7 @@ inductive Op where
   | swap (k : Option Nat)          -- `SwapValue(func(_) {return k})`, `none` = nil callback
   | getState
   | waitExited (rinr : Bool)
-deriving DecidableEq, Repr
+deriving DecidableEq, Repr, Hashable
 
 inductive Res where
   | bool (b : Bool)
@@ -84,28 +84,28 @@ inductive Res where
   | swapR (next : Nat) (ch changed reset running : Bool)
   | state (v : Nat)
   | wx (e : Option Nat)
-deriving DecidableEq, Repr
+deriving DecidableEq, Repr, Hashable
 
 inductive CallSt where
   | invoked | done (r : Res) | parked (woken : Bool) | wcancel | finished
-deriving DecidableEq, Repr
+deriving DecidableEq, Repr, Hashable
 
 structure Call where
   op : Op
   st : CallSt := .invoked
   wr : Option Nat := none          -- instance whose exit channel the call returned
-deriving DecidableEq, Repr
+deriving DecidableEq, Repr, Hashable
 
 structure Cfg where
   state : Bool := false            -- StateRoutineContainer
   cmp : Nat := 0                   -- 0 = nil compare, 1 = equality, 2 = same parity
   retry : Bool := false            -- a BackOff is configured
   ncb : Nat := 0                   -- number of exit callbacks
-deriving DecidableEq, Repr
+deriving DecidableEq, Repr, Hashable
 
 inductive BoRes where
   | reset | stop | dur
-deriving DecidableEq, Repr
+deriving DecidableEq, Repr, Hashable
 
 /-- observable events: exactly what the harness logs -/
 inductive Obs where
@@ -121,7 +121,7 @@ inductive Obs where
   | probeCtx (k : Nat) (cancelled : Bool)
   | probeW (a : Nat) (closed : Bool)
   | quiesce (pend run : List Nat)
-deriving DecidableEq, Repr
+deriving DecidableEq, Repr, Hashable
 
 inductive Ev where
   | cfg (c : Cfg)
@@ -144,7 +144,7 @@ inductive Ev where
   | probeCtx (k : Nat) (cancelled : Bool)
   | probeW (a : Nat) (closed : Bool)
   | quiesce (pend run : List Nat)
-deriving DecidableEq, Repr
+deriving DecidableEq, Repr, Hashable
 
 structure St where
   cfg : Option Cfg := none
@@ -160,7 +160,7 @@ structure St where
   sfn : Nat := 0
   wcx : List Nat := []             -- WaitExited calls whose context was cancelled
   lockq : List Obs := []           -- lines still to be logged by the running critical section
-deriving DecidableEq, Repr
+deriving DecidableEq, Repr, Hashable
 
 /-! ## helpers, one-to-one with the code -/
 
